@@ -169,7 +169,12 @@ def write_path(cell, path, val):
 def clone_value(v):
     """Copy/move semantics: aggregates are copied structurally, references are shared."""
     if isinstance(v, Struct):
-        return Struct(v.name, [clone_value(x) for x in v.fields])
+        c = Struct(v.name, [clone_value(x) for x in v.fields])
+        if hasattr(v, "cenv"):
+            c.cenv = v.cenv
+        if hasattr(v, "cfn"):
+            c.cfn = v.cfn
+        return c
     if isinstance(v, Tuple):
         return Tuple([clone_value(x) for x in v.fields])
     if isinstance(v, Array):
@@ -464,6 +469,105 @@ class StepByIter(IterBase):
         return c
 
 
+class PeekIter(IterBase):
+    def __init__(self, inner):
+        self.inner, self.buf, self.has = inner, None, False
+
+    def peek(self, it):
+        if not self.has:
+            self.buf, self.has = self.inner.next(it), True
+        return self.buf
+
+    def next(self, it):
+        if self.has:
+            self.has = False
+            x, self.buf = self.buf, None
+            return x
+        return self.inner.next(it)
+
+    def clone(self):
+        c = PeekIter(self.inner.clone())
+        c.buf, c.has = (clone_value(self.buf) if self.buf is not None else None), self.has
+        return c
+
+
+class FlatIter(IterBase):
+    """flat_map(f) / flatten(): closure may be None (flatten)"""
+
+    def __init__(self, inner, closure):
+        self.inner = inner
+        self.closure = None if closure is None else (closure if isinstance(closure, Cell) else Cell(closure))
+        self.cur = None
+
+    def next(self, it):
+        while True:
+            if self.cur is not None:
+                x = self.cur.next(it)
+                if x is not None:
+                    return x
+                self.cur = None
+            y = self.inner.next(it)
+            if y is None:
+                return None
+            if self.closure is not None:
+                y = it.call_closure(self.closure, [y])
+            if isinstance(y, Opt):
+                if y.some:
+                    return y.fields[0]
+                continue
+            self.cur = into_iter(y)
+
+    def clone(self):
+        c = FlatIter(self.inner.clone(), None if self.closure is None else Cell(clone_value(self.closure.v)))
+        c.cur = None if self.cur is None else self.cur.clone()
+        return c
+
+
+class CycleIter(IterBase):
+    def __init__(self, inner):
+        self.orig, self.cur = inner.clone(), inner
+
+    def next(self, it):
+        x = self.cur.next(it)
+        if x is None:
+            self.cur = self.orig.clone()
+            x = self.cur.next(it)
+        return x
+
+    def clone(self):
+        c = CycleIter(self.orig)
+        c.cur = self.cur.clone()
+        return c
+
+
+class FnIter(IterBase):
+    """iter::from_fn(f) / iter::successors(first, f) / iter::repeat(x) / repeat_with(f)"""
+
+    def __init__(self, kind, closure=None, state=None):
+        self.kind, self.state = kind, state
+        self.closure = None if closure is None else (closure if isinstance(closure, Cell) else Cell(closure))
+
+    def next(self, it):
+        if self.kind == "repeat":
+            return clone_value(self.state)
+        if self.kind == "repeat_with":
+            return it.call_closure(self.closure, [])
+        if self.kind == "from_fn":
+            r = it.call_closure(self.closure, [])
+            return r.fields[0] if r.some else None
+        # successors: state is Option<T>
+        cur = self.state
+        if not cur.some:
+            return None
+        x = cur.fields[0]
+        self.state = it.call_closure(self.closure, [Ref(Cell(x))])
+        return x
+
+    def clone(self):
+        return FnIter(self.kind, None if self.closure is None else Cell(clone_value(self.closure.v)),
+                      None if self.state is None else clone_value(self.state))
+
+
 class TakeIter(IterBase):
     def __init__(self, inner, n):
         self.inner, self.n = inner, n
@@ -563,7 +667,30 @@ def into_iter(v):
         tgt = read_path(v.cell, v.path)
         if isinstance(tgt, (Array, VecV)):
             return SliceIter(SliceRef(v.cell, v.path, 0, len(tgt.fields)))
+        if isinstance(tgt, IterBase):
+            return tgt  # `&mut iterator` is an iterator (by_ref, for x in &mut it)
+        if isinstance(tgt, Struct):
+            return CrateIter(v)
+    if isinstance(v, Struct):
+        return CrateIter(Ref(Cell(v)))
     raise Unsupported("into_iter of %r" % (v,))
+
+
+class CrateIter(IterBase):
+    """a value of a crate type that implements Iterator itself: `next` is the crate's own `<T as Iterator>::next`"""
+    interp = None  # set by Interp.__init__ (one interpreter at a time per process)
+
+    def __init__(self, ref):
+        self.ref = ref
+
+    def next(self, it):
+        r = it.do_call("<Self as Iterator>::next", [self.ref])
+        if not isinstance(r, Opt):
+            raise Unsupported("crate Iterator::next returned %r" % (r,))
+        return r.fields[0] if r.some else None
+
+    def clone(self):
+        return CrateIter(Ref(Cell(clone_value(read_path(self.ref.cell, self.ref.path)))))
 
 
 # ------------------------------------------------------------------ type patterns for dispatch
@@ -576,6 +703,30 @@ def strip_path(name):
     m = re.match(r"^([\w:]+)", name)
     base = m.group(1) if m else name
     return base.rstrip(":").split("::")[-1]
+
+
+def split_top_commas(s):
+    out, depth, cur = [], 0, ""
+    i = 0
+    while i < len(s):
+        ch = s[i]
+        if ch == "-" and s[i + 1:i + 2] == ">":
+            cur += "->"
+            i += 2
+            continue
+        if ch in "<([{":
+            depth += 1
+        elif ch in ">)]}":
+            depth -= 1
+        if ch == "," and depth == 0:
+            out.append(cur)
+            cur = ""
+        else:
+            cur += ch
+        i += 1
+    if cur.strip():
+        out.append(cur)
+    return out
 
 
 def strip_generics(s):
@@ -704,6 +855,9 @@ class Program:
                 m = re.search(r"(\{closure@[^}]*\})", f.params[0][1])
                 if m:
                     self.closures[m.group(1)] = f
+                    # macro-generated functions share the closure's source span: keep every body, resolved by the creating function
+                    self.closures_all = getattr(self, "closures_all", {})
+                    self.closures_all.setdefault(m.group(1), []).append(f)
                 continue
             seg = f.name.split("::")[-1]
             self.by_method.setdefault(seg, []).append(f)
@@ -714,7 +868,7 @@ class Program:
         """struct name -> [field names] from the Rust sources (declaration order = MIR field index)."""
         out = {}
         for text in self.sources.values():
-            for m in re.finditer(r"pub struct (\w+)(?:<[^>]*>)?\s*\{(.*?)\n\}", text, re.S):
+            for m in re.finditer(r"^(?:pub(?:\([^)]*\))?\s+)?struct (\w+)(?:<[^>]*>)?\s*(?:where[^{]*)?\{(.*?)\n\}", text, re.S | re.M):
                 names = re.findall(r"^\s*(?:pub(?:\([^)]*\))?\s+)?(\w+)\s*:", m.group(2), re.M)
                 out[m.group(1)] = names
         out.setdefault("RangeFrom", ["start"])
@@ -873,6 +1027,14 @@ class Interp:
         if not hasattr(self, "const_env"):
             self.const_env = [{}]
         cenv = dict(self.const_env[-1])  # closures of a const-generic function see its parameters
+        ce = getattr(self, "_closure_cenv", None)
+        self._closure_cenv = None
+        if ce:
+            cenv.update(ce)
+        tf = getattr(self, "_pending_turbofish", None)
+        self._pending_turbofish = None
+        if tf:
+            cenv.update(self._turbofish_consts(f, tf))
         for (_, ty), a in zip(f.params, args):
             for m in re.finditer(r"\[[^\[\];]+; ([A-Z][A-Z0-9_]*)\]", ty):
                 v = a
@@ -885,6 +1047,30 @@ class Interp:
             return self._run_body(f, frame)
         finally:
             self.const_env.pop()
+
+    def _turbofish_consts(self, f, callee):
+        """`name::<A, 3, F>` + the function's generic parameter list in the source -> {const parameter name: value}"""
+        m = re.search(r"::<(.*)>\s*$", callee, re.S)
+        if not m:
+            return {}
+        last = strip_generics(f.name).split("::")[-1]
+        decls = []
+        for text in self.p.sources.values():
+            decls += re.findall(r"\bfn\s+%s\s*<([^()]*?)>\s*\(" % re.escape(last), text, re.S)
+        if len(decls) != 1:
+            return {}
+        params = [x.strip() for x in split_top_commas(decls[0]) if x.strip() and not x.strip().startswith("'")]
+        args = [x.strip() for x in split_top_commas(m.group(1)) if x.strip() and not x.strip().startswith("'")]
+        out = {}
+        if len(params) != len(args):
+            return {}
+        for p_, a_ in zip(params, args):
+            pm = re.match(r"^const\s+(\w+)\s*:", p_)
+            if pm and re.match(r"^\d+$", a_):
+                out[pm.group(1)] = int(a_)
+            elif pm and re.match(r"^\d+_usize$", a_):
+                out[pm.group(1)] = int(a_.split("_")[0])
+        return out
 
     def _run_body(self, f, frame):
         bb = 0
@@ -959,7 +1145,8 @@ class Interp:
             return self.do_call(closure.fields[0], list(args))
         if not isinstance(closure, Struct) or closure.name not in self.p.closures:
             raise Unsupported("closure %r" % (closure,))
-        f = self.p.closures[closure.name]
+        f = getattr(closure, "cfn", None) or self.p.closures[closure.name]
+        self._closure_cenv = getattr(closure, "cenv", None)
         # closure bodies take (&mut closure | closure, args...) ; args may be passed spread or as one tuple
         env_ty = f.params[0][1]
         env = Ref(cell) if env_ty.strip().startswith("&") else closure
@@ -1009,18 +1196,39 @@ class Interp:
                 raise Unsupported("symbolic index")
             if isinstance(cell, SliceRef):
                 sl = cell
-                if idx >= len(sl):
+                if idx < 0:
+                    idx += len(sl)  # ConstantIndex from the end
+                if idx >= len(sl) or idx < 0:
                     raise Panic("index out of bounds")
                 return sl.cell, sl.path + (sl.start + idx,)
             tgt = read_path(cell, path)
-            if isinstance(tgt, (Array, VecV)) and idx >= len(tgt.fields):
-                raise Panic("index out of bounds")
+            if isinstance(tgt, (Array, VecV)):
+                if idx < 0:
+                    idx += len(tgt.fields)
+                if idx >= len(tgt.fields) or idx < 0:
+                    raise Panic("index out of bounds")
             return cell, path + (idx,)
+        if isinstance(place, mp.Subslice):
+            cell, path = self.locate(f, frame, place.base)
+            if isinstance(cell, SliceRef):
+                base_cell, base_path, start, n = cell.cell, cell.path, cell.start, len(cell)
+            else:
+                tgt = read_path(cell, path)
+                if not isinstance(tgt, (Array, VecV)):
+                    raise Unsupported("subslice of %r" % (tgt,))
+                base_cell, base_path, start, n = cell, path, 0, len(tgt.fields)
+            hi = place.hi
+            end = n if hi == "" else (n + int(hi) if hi.startswith("-") else int(hi))
+            if place.lo > end or end > n:
+                raise Panic("subslice out of bounds")
+            return SliceRef(base_cell, base_path, start + place.lo, start + end), ()
         raise Unsupported("place %r" % (place,))
 
     def read_place(self, f, frame, place):
         cell, path = self.locate(f, frame, place)
         if isinstance(cell, SliceRef):
+            if isinstance(place, mp.Subslice) and getattr(place, "array", False):
+                return Array([read_path(cell.cell, cell.path + (cell.start + i,)) for i in range(len(cell))])
             return cell
         v = read_path(cell, path)
         if v is None:
@@ -1048,7 +1256,19 @@ class Interp:
                 if len(cands) == 1:
                     return self.call_function(cands[0], [])
                 raise Unsupported("promoted constant %s of %s" % (k, f.name))
-            return self.eval_const(op.text)
+            v = self.eval_const(op.text)
+            if isinstance(v, Struct) and not v.fields and v.name.startswith("{closure@"):
+                env = getattr(self, "const_env", None)
+                if env and env[-1]:
+                    v.cenv = dict(env[-1])
+            if isinstance(v, Struct) and not v.fields:
+                alts = getattr(self.p, "closures_all", {}).get(v.name, [])
+                if len(alts) > 1:  # capture-less closure of a macro-generated function: several bodies share the span
+                    mine = [g for g in alts if g.name.startswith(f.name + "::{closure#")]
+                    if len(mine) != 1:
+                        raise Unsupported("closure %s: %d bodies share this source span" % (v.name, len(alts)))
+                    v.cfn = mine[0]
+            return v
         raise Unsupported("operand %r" % (op,))
 
     def eval_const(self, text):
@@ -1067,6 +1287,13 @@ class Interp:
             return self.dom.const(float(m.group(1)))
         if t.startswith('"'):
             return t
+        m = re.search(r"as (?:std::mem::)?SizedTypeProperties>::(ALIGN|SIZE|IS_ZST)$", t)
+        if m:
+            return {"ALIGN": 8, "SIZE": 8, "IS_ZST": False}[m.group(1)]  # only compared with 0 / used as an alignment mask
+        if t == "RangeFull" or t.endswith("::RangeFull"):
+            return Struct("RangeFull", [])
+        if re.match(r"^(?:std::option::)?Option::<.*>::None$", t, re.S):
+            return Opt(None, False)
         if t.startswith("ZeroSized:"):
             name = t[len("ZeroSized:"):].strip()
             return Struct(name, [])
@@ -1082,10 +1309,24 @@ class Interp:
             return EnumVal("Ordering", last, {"Less": -1, "Equal": 0, "Greater": 1}[last])
         if last in self.p.consts:
             return self.eval_const(self.p.consts[last])
-        # const generic parameter of the running function, bound from the array lengths of its arguments
+        # const generic parameter of the running function, bound from the array lengths of its arguments / its turbofish
         env = getattr(self, "const_env", None)
         if env and re.match(r"^[A-Z][A-Z0-9_]*$", t) and t in env[-1]:
             return env[-1][t]
+        # const / static item whose initialiser has a body (e.g. a table built by a const fn): run it (once)
+        for key in (t, last):
+            for f_ in self.p.by_name.get(key, []):
+                if getattr(f_, "is_const_item", False):
+                    cache = self.p.__dict__.setdefault("_const_item_cache", {})
+                    if f_.name not in cache:
+                        cache[f_.name] = self.call_function(f_, [])
+                    return clone_value(cache[f_.name])
+        cands = [f_ for f_ in self.p.funcs if getattr(f_, "is_const_item", False) and f_.name.split("::")[-1] == last]
+        if len(cands) == 1:
+            cache = self.p.__dict__.setdefault("_const_item_cache", {})
+            if cands[0].name not in cache:
+                cache[cands[0].name] = self.call_function(cands[0], [])
+            return clone_value(cache[cands[0].name])
         raise Unsupported("constant %r" % t)
 
     def eval_rvalue(self, f, frame, rv):
@@ -1123,7 +1364,17 @@ class Interp:
             if rv.kind == "tuple":
                 return Tuple(ops) if ops else UNIT
             if rv.kind == "closure":
-                return Struct(rv.name, ops)
+                cl = Struct(rv.name, ops)
+                alts = getattr(self.p, "closures_all", {}).get(rv.name, [])
+                if len(alts) > 1:
+                    mine = [g for g in alts if g.name.startswith(f.name + "::{closure#")]
+                    if len(mine) != 1:
+                        raise Unsupported("closure %s: %d bodies share this source span, %d belong to %s" % (rv.name, len(alts), len(mine), f.name))
+                    cl.cfn = mine[0]
+                env = getattr(self, "const_env", None)
+                if env and env[-1]:
+                    cl.cenv = dict(env[-1])  # a closure of a const-generic function may run after that function returned
+                return cl
             if rv.kind in ("struct", "tstruct", "unit"):
                 full = rv.name
                 try:
@@ -1158,6 +1409,17 @@ class Interp:
                 return v
             if rv.kind.startswith("IntToInt") and isinstance(v, int):
                 return v
+            if rv.kind.startswith("PtrToPtr") or "MutToConstPointer" in rv.kind or rv.kind.startswith("PointerCoercion"):
+                return v
+            if rv.kind.startswith("Transmute"):
+                ty = (rv.ty or "").strip()
+                if isinstance(v, Struct) and v.name in ("NonNull", "Unique") and len(v.fields) == 1:
+                    return v.fields[0] if v.name == "NonNull" else v.fields[0].fields[0]
+                if isinstance(v, (Ref, SliceRef)) and ty == "usize":
+                    return 0x10000  # an address: non-null and aligned for every type; only null / alignment checks read it
+                if isinstance(v, (Ref, SliceRef)) and ty.startswith("*"):
+                    return v
+                raise Unsupported("cast Transmute of %s to %s" % (type(v).__name__, ty))
             if rv.kind.startswith("IntToFloat") and isinstance(v, int) and not isinstance(v, bool) and abs(v) <= 2 ** 53:
                 return self.dom.const(float(v))  # exact for |v| <= 2^53
             if rv.kind.startswith("FloatToFloat") and "f64" in (rv.ty or ""):
@@ -1288,6 +1550,7 @@ class Interp:
                 raise Unsupported("no crate impl for %s with args %r" % (callee[:120], [type(a).__name__ for a in args]))
             return self.call_function(f, args)
         # free function / inherent associated function of the crate
+        self._pending_turbofish = callee
         name = strip_generics(callee)
         seg = name.split("::")[-1]
         cands = [f for f in self.p.by_method.get(seg, []) if len(f.params) == len(args)]
